@@ -450,8 +450,8 @@ class Desugarer:
             first, rest = self.split_segments(e[2])
             cur = h
             if first:
-                y = self.fresh("x")
-                head_paths.setdefault(h, {})[tuple(first)] = y
+                y = head_paths.setdefault(h, {}).get(tuple(first)) or self.fresh("x")
+                head_paths[h][tuple(first)] = y
                 cur = y
             if rest:
                 chains.append((cur, rest, e))
@@ -710,6 +710,9 @@ def features(F):
     plain_free = set()
     head_free = set()
     xp_by_head = {}
+    free_heads_seen = set()
+    dd_child = {}
+    closed_unnamed_xp = {}  # type of an unnamed quantifier (scope over) with XPath expressions on it -> their variable names
     dup_omitted = set()   # types of unnamed quantifiers below iff/xor (duplicated and renamed by the parser)
     xp_final_types = set()
     bound_names = {}      # variable name -> number of quantifiers binding it
@@ -722,6 +725,10 @@ def features(F):
         seen_free.add(T)
         if T not in registered:
             registered.add(T)
+            if T in closed_unnamed_xp:
+                # the new variable gets the invented name the unnamed quantifier's variable had
+                fs.add("xp_head_name_reused")
+                cause("xp_head_name_reused", _base(T), *closed_unnamed_xp[T])
             if T in xp_named:
                 fs.add("free_after_xpath_same_type")
                 cause("free_after_xpath_same_type", _base(T))
@@ -743,6 +750,13 @@ def features(F):
                 fs.add("name_omitted")
                 env2 = dict(env)
                 env2[T] = info
+                if T in free_heads_seen:
+                    # XPath expressions headed by the (so far free) nonterminal are re-rooted at this quantifier's variable
+                    fs.add("free_head_before_omitted")
+                    cause("free_head_before_omitted", _base(T))
+                if T in closed_unnamed_xp:
+                    fs.add("xp_head_name_reused")
+                    cause("xp_head_name_reused", _base(T), *closed_unnamed_xp[T])
                 if T in seen_free:
                     fs.add("free_before_omitted")
                     cause("free_before_omitted", _base(T))
@@ -761,6 +775,8 @@ def features(F):
             walk(body, env2, b2, pol, info["blocked"])
             if v is None:
                 registered.discard(T)
+                if info.get("xp_names"):
+                    closed_unnamed_xp.setdefault(T, set()).update(info["xp_names"])
             # the parser looks at the container after the body
             if inr is not None:
                 ref(inr, env, binders, pol, blocked, "in")
@@ -828,11 +844,17 @@ def features(F):
                     info = env[h[1]]
                     fs.add("xp_head:omitted_" + info["kind"])
                     names = [_base(h[1])]
+                    info.setdefault("xp_keys", set()).add(xp_key(r))
+                    if len(info["xp_keys"]) >= 2:
+                        fs.add("unnamed_binder_two_xpaths")
+                    info.setdefault("xp_names", set()).update(
+                        {_base(steps[-1][1])} | ({_base(first[-1][0])} if first else set()))
                 else:
                     fs.add("xp_head:free")
                     fs.add("free_nt")
                     register_free(h[1])
                     head_free.add(h[1])
+                    free_heads_seen.add(h[1])
                     if blocked:
                         fs.add("free_nt_under_exists")
                     if h[1] == "<start>":
@@ -852,6 +874,11 @@ def features(F):
                 hid = "v:" + h[1]
             xp_by_head.setdefault(hid, set()).add(xp_key(r))
             xp_final_types.add(steps[-1][1])
+            for j, st in enumerate(steps[:-1]):
+                if st[0] == ".." and steps[j + 1][0] == ".":
+                    dd_child.setdefault(st[1], set()).add(xp_key(r))
+                    if len(dd_child[st[1]]) >= 2:
+                        fs.add("two_dd_child_same_type")
             if xp_key(r) not in xp_seen:
                 xp_seen.add(xp_key(r))
                 if steps[-1][1] not in registered:
@@ -906,6 +933,38 @@ def features(F):
     return fs, causes
 
 
+def merge_risk(cg, F):
+    """some variable is head of two XPath expressions with different child paths, and not every step label occurs in
+    exactly one expansion alternative of its parent: the two sets of match expressions do not pin the same expansions
+    (the mergeability precondition of the implementation)"""
+    types = {"start": "<start>"}
+    for x in sub_formulas(F):
+        if x[0] in ("forall", "exists"):
+            if x[2] is not None:
+                types[x[2]] = x[1]
+            for v, t in (fml.mexpr_vars(x[4]) if x[4] else []):
+                types[v] = t
+    by = {}
+    for r in all_refs(F):
+        if r[0] != "xp":
+            continue
+        T = r[1][1] if r[1][0] == "nt" else types.get(r[1][1])
+        first, _ = Desugarer.split_segments(r[2])
+        if T is None or not first:
+            continue
+        by.setdefault((ref_str(r[1]), T), set()).add(tuple(first))
+    for (_, T), paths in by.items():
+        if len(paths) < 2:
+            continue
+        for path in paths:
+            cur = T
+            for lab, _ in path:
+                if sum(1 for a in cg.get(cur, []) if lab in a) != 1:
+                    return True
+                cur = lab
+    return False
+
+
 SUGAR_FEATURES = ("in_start_omitted", "name_omitted", "free_nt", "xp_child", "xp_dd", "infix", "prefix", "neg_literal",
                   "conn:implies", "conn:iff", "conn:xor", "precedence", "in_nonterminal")
 
@@ -919,8 +978,8 @@ class SGen:
         self.rnd, self.cg = rnd, cg
         self.is_const = is_const
         self.R = rt.reach(cg)
-        o = dict(p_omit_in=0.6, p_omit_name=0.3, p_free=0.22, p_xp=0.4, p_dd=0.3, p_user_mexpr=0.08, p_multiseg=0.03,
-                 p_start_dd=0.015, p_conflict=0.08, p_in_nt=0.12, p_neg=0.25, p_flat=0.35, p_forall=0.55,
+        o = dict(p_omit_in=0.6, p_omit_name=0.3, p_free=0.22, p_xp=0.4, p_dd=0.3, p_user_mexpr=0.08, p_multiseg=0.2, p_pair=0.09, p_pair_unnamed=0.4,
+                 p_start_dd=0.03, p_conflict=0.08, p_in_nt=0.12, p_neg=0.25, p_flat=0.35, p_forall=0.55,
                  p_known_shape=0.12, p_free_start=0.04, p_reuse_name=0.5,
                  connectives=("and", "or", "not", "implies", "iff", "xor"))
         o.update(opts or {})
@@ -982,10 +1041,33 @@ class SGen:
             return None
         return steps, cur, uniq, first_len
 
-    def compatible(self, hid, steps, uniq, first_len, tentative):
+    def feasible(self, T, paths):
+        """is there an expansion of a <T> node that contains all addressed children?"""
+        trie = {}
+        for path in paths:
+            cur = trie
+            for lab, idx in path:
+                cur = cur.setdefault((lab, idx), [None, {}])[1]
+        def fill(tr):
+            for k, ent in tr.items():
+                if ent[1]:
+                    fill(ent[1])
+                else:
+                    ent[0] = "_"
+        fill(trie)
+        try:
+            return bool(Desugarer(self.cg, max_alts=24).expand(T, trie))
+        except NotPinned:
+            return False
+
+    def compatible(self, hid, steps, uniq, first_len, tentative, T=None):
         """mergeability precondition for several XPath expressions on one variable"""
         key = tuple((s[0], s[1], s[2] or 1) for s in steps)
         mine = key[:first_len]
+        if T is not None and mine:
+            others = [o[:of] for (o, of, _) in self.paths.get(hid, []) + tentative.get(hid, []) if o[:of] and o != key]
+            if others and not self.feasible(T, [tuple((x[1], x[2]) for x in q) for q in others + [mine]]):
+                return False
         for (other, ofirst, ouniq) in self.paths.get(hid, []) + tentative.get(hid, []):
             if other == key:
                 return True
@@ -1004,7 +1086,7 @@ class SGen:
         if not m:
             return None
         steps, final, uniq, first_len = m
-        if not self.compatible(hid, steps, uniq, first_len, tentative):
+        if not self.compatible(hid, steps, uniq, first_len, tentative, T):
             return None
         ent = (tuple((s[0], s[1], s[2] or 1) for s in steps), first_len, uniq)
         tentative.setdefault(hid, []).append(ent)
@@ -1023,14 +1105,13 @@ class SGen:
                 nts = [T for T in self.cg if T not in env and (T != "<start>" or chance(rnd, o["p_free_start"]))]
                 if nts:
                     T = pick(rnd, nts)
-                    if chance(rnd, o["p_xp"]) and (T not in self.free_plain or chance(rnd, o["p_known_shape"])):
+                    if chance(rnd, o["p_xp"]):
                         x = self.try_xpath(["nt", T], T, "free:" + T, tentative)
                         if x:
                             out.append(x + ("head", T))
                             continue
-                    if T not in self.free_head or chance(rnd, o["p_known_shape"]):
-                        out.append((["nt", T], T, None, "plain", T))
-                        continue
+                    out.append((["nt", T], T, None, "plain", T))
+                    continue
             if r < o["p_free"] + o["p_xp"] and ents:
                 e = pick(rnd, ents)
                 again = [x for x in ents if self.paths.get(x["hid"]) or tentative.get(x["hid"])]
@@ -1056,7 +1137,99 @@ class SGen:
         return out
 
     # ---- atoms
+    def xpath_pair(self, scope, env):
+        """two DIFFERENT XPath expressions on one head in one (compound) atom -- with preference for the heads whose
+        translation needs bookkeeping per expression: the nonterminal of an unnamed quantifier, a free nonterminal --
+        and, half of the time, two expressions `h..<T>.<U>` / `h..<T>.<U'>` that continue after the same `..<T>`"""
+        rnd, o = self.rnd, self.o
+        unnamed, named, free = [], [], []
+        for e in scope:
+            if e["ref"] == ["v", "start"] or e.get("mexprvar"):
+                continue
+            (unnamed if e["ref"][0] == "nt" else named).append(
+                (e["ref"], e["T"], e["hid"], (not e["blocked"]) and e["pol"] == 1))
+        for T in self.cg:
+            if T not in env and T != "<start>":
+                free.append((["nt", T], T, "free:" + T, True))
+        for _ in range(8):
+            heads = unnamed if unnamed and chance(rnd, 0.75) else named if named and chance(rnd, 0.6) else free or named or unnamed
+            if not heads:
+                return None
+            href, T, hid, dd_ok = pick(rnd, heads)
+            tentative = {}
+            if dd_ok and chance(rnd, 0.5):
+                # shared prefix, then `..<D>`, then two different continuations
+                pre = []
+                cur = T
+                if False:
+                    st = self.child_step(cur)
+                    if st is not None:
+                        pre.append([".", st[0], None if st[1] == 1 else st[1]])
+                        cur = st[0]
+                ds = [D for D in sorted(self.R[cur]) if sum(1 for a in self.cg[D] for x in a if is_nt(x)) >= 2]
+                if not ds:
+                    continue
+                D = pick(rnd, ds)
+                conts = []
+                for _ in range(6):
+                    st = self.child_step(D)
+                    if st is None:
+                        break
+                    c = [[".", st[0], None if st[1] == 1 and chance(rnd, 0.7) else st[1]]]
+                    if chance(rnd, 0.3):
+                        st2 = self.child_step(st[0])
+                        if st2 is not None:
+                            c.append([".", st2[0], None if st2[1] == 1 else st2[1]])
+                    key = tuple((x[1], x[2] or 1) for x in c)
+                    if key not in [k for k, _ in conts]:
+                        conts.append((key, c))
+                    if len(conts) == 2:
+                        break
+                if len(conts) < 2:
+                    continue
+                if pre and not self.compatible(hid, pre, self.unique_alt(T, pre[0][1]), 1, tentative):
+                    continue
+                exprs = [(["xp", href, pre + [["..", D, None]] + c], c[-1][1]) for _, c in conts]
+                commits = [(hid, (tuple((x[0], x[1], x[2] or 1) for x in e[0][2]), len(pre), True)) for e in exprs]
+            else:
+                got = []
+                for _ in range(8):
+                    x = self.try_xpath(href, T, hid, tentative, allow_dd=dd_ok and chance(rnd, 0.3))
+                    if x and xp_key(x[0]) not in [xp_key(g[0]) for g in got]:
+                        got.append(x)
+                    if len(got) == 2:
+                        break
+                if len(got) < 2:
+                    continue
+                exprs = [(g[0], g[1]) for g in got]
+                commits = [g[2] for g in got]
+            for hid_, ent in commits:
+                if ent not in self.paths.setdefault(hid_, []):
+                    self.paths[hid_].append(ent)
+            if href[0] == "nt" and href[1] not in env:
+                self.free_head.add(href[1])
+            (r1, t1), (r2, t2) = exprs
+
+            def lit_atom(r, t):
+                pool = self.fg.lits.get(t) or ["zz"]
+                s_ = pick(rnd, pool) if chance(rnd, 0.85) else "zz"
+                return ["smt", ["app", pick(rnd, ["i", "i", "s"]), "=", ["ref", r], ["str", s_]]]
+
+            k = rnd.random()
+            if k < 0.4:
+                a = ["smt", ["app", pick(rnd, ["i", "i", "s"]), "=", ["ref", r1], ["ref", r2]]]
+                return ["not", a] if chance(rnd, 0.3) else a
+            if k < 0.55:
+                return ["pred", pick(rnd, ["before", "inside", "different_position", "same_position"]), ["r", r1], ["r", r2]]
+            return [pick(rnd, ["and", "or", "or"]), lit_atom(r1, t1), lit_atom(r2, t2)]
+        return None
+
     def atom(self, scope, env):
+        unnamed_in_scope = any(e["ref"][0] == "nt" for e in scope)
+        if chance(self.rnd, self.o["p_pair_unnamed"] if unnamed_in_scope else self.o["p_pair"]):
+            a = self.xpath_pair(scope, env)
+            if a is not None:
+                return a
         tentative = {}
         cands = self.candidates(scope, env, tentative)
         pseudo = [("@%d" % i, c[1]) for i, c in enumerate(cands)]
@@ -1199,8 +1372,6 @@ class SGen:
             # the same name for another quantifier outside the first one's scope
             name = pick(rnd, again)
         omit = chance(rnd, o["p_omit_name"]) and T not in env and not (inref[0] == "nt" and inref[1] == T)
-        if omit and (T in self.free_plain or T in self.free_head) and not chance(rnd, o["p_known_shape"]):
-            omit = False
         q = "forall" if chance(rnd, o["p_forall"]) else "exists"
         eff_forall = (q == "forall" and pol == 1) or (q == "exists" and pol == -1)
         blocked2 = blocked or not eff_forall
